@@ -172,3 +172,28 @@ CHECKS.update({
         "note": "Trusted: ref/refext4.py; simclock feeds every time source tune2fs and e2fsck reach (s_lastcheck/s_mtime comparisons).",
     },
 })
+
+CHECKS.update({
+    "C14": {
+        "level": "exploration",
+        "technique": SIM + "writer chains on the simulated disk with every checksum recomputed by an independent implementation after each step (incl. an independent JBD2 checksum verifier for what the debugfs journal writer logs); stored-byte faults at sampled covered offsets of every object type, judged through the library API (harness) and e2fsck -fn",
+        "text": ("written: after every step of seeded chains (mke2fs, debugfs population/removals, tune2fs re-keying, resize2fs with inode renumbering, "
+                 "e2fsck -fyD, the debugfs journal writer with escaped blocks and revokes) the independent reader recomputes the checksum of every "
+                 "superblock, descriptor, bitmap, inode, extent block, directory leaf/index block, xattr block, MMP block and of the journal "
+                 "superblock/descriptor/tag/commit/revoke blocks.  detect: one bit of a byte in the format-defined covered range of a sampled object "
+                 "of each type is flipped; the library API reading that object must return an error and e2fsck -fn must exit non-zero.  The "
+                 "CRC-primitive sentence is a pure function and not a simulation target.  Sampling."),
+        "note": "Trusted: ref/refext4.py (own CRC tables generated from the polynomials), the JBD2 verifier in checks/C14.py. Stored-byte faults in descriptor/commit/revoke blocks of an unrecovered journal are C03's rot configuration (only replay reads them).",
+    },
+    "C19": {
+        "level": "exploration",
+        "technique": SIM + "e2image with the source as a write-monitored simulated device and the image as a second one (short write / ENOSPC / EIO injected on the output); per-block comparison over the metadata set enumerated by the independent reader, qcow2 round trip, e2fsck/dumpe2fs equality",
+        "text": ("Seeded populated filesystems (xattr blocks also on objects without data blocks, deep extent trees, indexed directories; clean, with "
+                 "an unrecovered journal or an orphan; ordinary or many-group geometries that overflow the qcow2 L2-table cache) are imaged with "
+                 "e2image -r, -Q, -Q then -r, and -ra.  The source sees zero mutating events; every block of the independently computed metadata set "
+                 "is byte-identical in the raw image; qcow2 -> raw equals the direct raw image; e2fsck -fn and dumpe2fs give the same results on image "
+                 "and source; the all-data image has the same tree digest and differs only in blocks nothing owns; an output write failure ends in a "
+                 "non-zero status.  Sampling."),
+        "note": "Trusted: ref/refext4.py owner_map(); the metadata set demanded is a subset of what e2image documents to copy.",
+    },
+})
